@@ -3,6 +3,7 @@ package props
 import (
 	"context"
 	"fmt"
+	"strings"
 
 	"verif/harness/evid"
 	"verif/harness/rig"
@@ -10,6 +11,7 @@ import (
 	"github.com/attestantio/dirk/core"
 	"github.com/attestantio/dirk/services/checker"
 	staticchecker "github.com/attestantio/dirk/services/checker/static"
+	pb "github.com/wealdtech/eth2-signer-api/pb/v1"
 	e2wtypes "github.com/wealdtech/go-eth2-wallet-types/v2"
 )
 
@@ -229,5 +231,90 @@ func c07Services(run *evid.Run, cfg Cfg) {
 			}
 		}
 		env.Stack.Close()
+		c07Managers(run, cfg, g, t)
+	}
+}
+
+// c07Managers exercises the account manager (lock, unlock) and account creation through the real process
+// service and the handlers on a one-instance cluster with real wallets, for the given table.
+func c07Managers(run *evid.Run, cfg Cfg, g *PermGen, t int) {
+	c, err := rig.NewCluster(rig.ClusterOpts{Dir: cfg.Dir(fmt.Sprintf("c07m-%d", t%4)), IDs: []uint64{1}, Permissions: g.Dirk,
+		NDWallets: map[string][]string{"Wallet1": {"acct1"}, "Cold": {"b"}}})
+	if err != nil {
+		run.Count("manager_tables_rejected", 1)
+		return
+	}
+	defer c.Close()
+	inst := c.Inst[1]
+	ctx := context.Background()
+	for _, client := range []string{"client1", "client2", "stranger"} {
+		creds := &checker.Credentials{RequestID: "r", Client: client, IP: "10.0.0.1"}
+		for _, full := range []string{"Wallet1/acct1", "Cold/b"} {
+			wname, aname, _ := strings.Cut(full, "/")
+			_, acct, err := inst.Stack.Fetcher.FetchAccount(ctx, full)
+			if err != nil {
+				run.Inconclusive("cannot fetch " + full)
+				return
+			}
+			lk := acct.(e2wtypes.AccountLocker)
+			for _, op := range []string{"Unlock account", "Lock account", "Unlock account"} {
+				was, _ := lk.IsUnlocked(ctx)
+				var res core.Result
+				viaH := (len(client)+len(op)+t)%2 == 0
+				if viaH {
+					if op == "Lock account" {
+						r, err := inst.Stack.AccountH.Lock(rig.HandlerCtx(client, "10.0.0.1"), &pb.LockAccountRequest{Account: full})
+						if err == nil {
+							res = resFromPB(r.GetState())
+						}
+					} else {
+						r, err := inst.Stack.AccountH.Unlock(rig.HandlerCtx(client, "10.0.0.1"), &pb.UnlockAccountRequest{Account: full, Passphrase: []byte("pass")})
+						if err == nil {
+							res = resFromPB(r.GetState())
+						}
+					}
+				} else if op == "Lock account" {
+					res, _ = inst.Stack.AccountMgr.Lock(ctx, creds, full)
+				} else {
+					res, _ = inst.Stack.AccountMgr.Unlock(ctx, creds, full, []byte("pass"))
+				}
+				now, _ := lk.IsUnlocked(ctx)
+				allowed := g.Model.Allowed(client, wname, aname, op)
+				run.Eval(1)
+				run.Distinct(fmt.Sprintf("service accountmanager %s handler=%v allowed=%v -> %s", op, viaH, allowed, res))
+				if res == core.ResultSucceeded && !allowed {
+					run.Violate(fmt.Sprintf("%s carried out on %s although client %q is not allowed to", op, full, client), g.Model)
+				}
+				if !allowed && now != was {
+					run.Violate(fmt.Sprintf("refused %s on %s changed the account's lock state", op, full), g.Model)
+				}
+				run.Count("manager_ops", 1)
+			}
+		}
+		// Account creation.
+		for _, wname := range []string{"Wallet1", "Cold"} {
+			name := fmt.Sprintf("%s/new-%s-%d", wname, client, t)
+			allowed := g.Model.Allowed(client, wname, strings.SplitN(name, "/", 2)[1], "Create account")
+			var gerr error
+			if t%2 == 0 {
+				_, _, gerr = inst.Stack.Process.OnGenerate(ctx, creds, name, []byte("pass"), 1, 1)
+			} else {
+				r, err := inst.Stack.AccountH.Generate(rig.HandlerCtx(client, "10.0.0.1"), &pb.GenerateRequest{Account: name, Passphrase: []byte("pass"), Participants: 1, SigningThreshold: 1})
+				if err != nil || r.GetState() != pb.ResponseState_SUCCEEDED {
+					gerr = fmt.Errorf("state %v err %v", r.GetState(), err)
+				}
+			}
+			_, _, ferr := inst.Stack.Fetcher.FetchAccount(ctx, name)
+			exists := ferr == nil
+			run.Eval(1)
+			run.Distinct(fmt.Sprintf("service create-account allowed=%v ok=%v", allowed, gerr == nil))
+			if (gerr == nil || exists) && !allowed {
+				run.Violate(fmt.Sprintf("account %s was created although client %q is not allowed to create it", name, client), g.Model)
+			}
+			if gerr == nil {
+				run.Count("accounts_created", 1)
+			}
+			run.Count("manager_ops", 1)
+		}
 	}
 }
